@@ -54,8 +54,17 @@ def classify(c, r):
 
 
 def equal(a, b):
-    """The numeric value of the resolved limit (`lim=<need>` for the symbolic limits n / n-1) is C07's subject,
-    not C06's: a harmless change of a buffer size must not alarm here. Everything else is compared exactly."""
+    """The numeric value of the resolved limit (`lim=<need>` for the symbolic limits n / n-1) and the exact
+    threshold at which a fixed limit starts to be refused are C07's subject, not C06's: a harmless change of a
+    buffer size or of the allocation policy must not alarm here. Tolerated therefore: exactly one side `mem` (refused)
+    where the other side went on (ok, or io on a faulty stream) — whatever the implementation did is individually
+    checked against C06's clauses by the oracle (ok: consumed exactly the surface; mem: reader where it was; io only
+    when the reader faulted).
+    Everything else is compared exactly."""
     import re
     strip = lambda s: re.sub(r" lim=\d+", " lim=*", s)
-    return strip(a) == strip(b)
+    a, b = strip(a), strip(b)
+    if a == b:
+        return True
+    ta, tb = a.split(), b.split()
+    return len(ta) >= 1 and len(tb) >= 1 and (ta[0] == "mem") != (tb[0] == "mem")
